@@ -102,24 +102,43 @@ theorem fstep_eff (s s' : FSt) (l : FLab) (h : fstep? s l = some s') : Eff s l s
       | none => simp [hsp, hst] at h
       | some st =>
         simp only [hsp, hst] at h
-        have hfin := fun cr => Eff.finish (s := s) (l := .taskEnded x exc) x cr s.handlerCalls
-          (Or.inl ⟨rfl, by intros; simp⟩)
+        have hfin : Eff s (.taskEnded x exc) { s.finish x with hist := s.hist ++ [.taskEnded x exc] } :=
+          Eff.finish (s := s) (l := .taskEnded x exc) x (s.finish x).crashed s.handlerCalls
+            (Or.inl ⟨rfl, by intros; simp⟩)
+        have hfinE : ∀ e, Eff s (.taskEnded x exc)
+            { s.finish x with crashed := s.crashed ++ [e], hist := s.hist ++ [.taskEnded x exc] } :=
+          fun e => Eff.finish (s := s) (l := .taskEnded x exc) x (s.crashed ++ [e]) s.handlerCalls
+            (Or.inl ⟨rfl, by intros; simp⟩)
+        have hok0 : ∀ st0 : BgStatus,
+            (st0 == .cancelled || (!s.crashed.isEmpty && (st0 == .running || st0 == .cancelAsked))) = true →
+            st0 ≠ .ended := by
+          intro st0 hc
+          simp only [Bool.or_eq_true, Bool.and_eq_true, beq_iff_eq] at hc
+          rcases hc with h1 | ⟨_, h1 | h1⟩ <;> (rw [h1]; simp)
         split at h
-        · injection h with h; subst h; exact hfin _
-        · injection h with h; subst h; exact hfin _
+        · injection h with h; subst h; exact hfin
+        · injection h with h; subst h; exact hfin
         · obtain ⟨hc, h⟩ := ite_none_right h
           split at h
-          · injection h with h; subst h; exact hfin _
+          · injection h with h; subst h; exact hfinE _
           · injection h with h; subst h
             exact Eff.set x _ _ hst (by simp) (by simp) (by simp) (by intros; simp)
         · obtain ⟨hc, h⟩ := ite_none_right h
           split at h
-          · injection h with h; subst h; exact hfin _
+          · injection h with h; subst h; exact hfinE _
           · injection h with h; subst h
             exact Eff.set x _ _ hst (by simp) (by simp) (by simp) (by intros; simp)
-        · injection h with h; subst h; exact hfin _
+        · obtain ⟨hc, h⟩ := ite_none_right h
+          have hok := hok0 _ (Bool.and_eq_true _ _ ▸ hc).2
+          split at h
+          · injection h with h; subst h; exact hfinE _
+          · injection h with h; subst h
+            exact Eff.set x _ _ hst hok (by simp) (by simp) (by intros; simp)
         · obtain ⟨hc, h⟩ := ite_some_none h
-          subst h; exact hfin _
+          subst h; exact hfin
+        · injection h with h; subst h; exact hfin
+        · obtain ⟨hc, h⟩ := ite_some_none h
+          subst h; exact hfin
   | handlerCalled x e =>
     unfold fstep? at h
     simp only [] at h
@@ -394,8 +413,25 @@ theorem fstep_handlerCalled (s s' : FSt) (x e : Nat) (h : fstep? s (.handlerCall
     · intro ht; subst ht; rfl
   · exact absurd h (by simp)
 
-theorem fstep_taskEnded_absent (s s' : FSt) (x e : Nat) (hh : s.handler = .absent)
-    (h : fstep? s (.taskEnded x (some e)) = some s') : s'.crashed = s.crashed ++ [e] := by
+/-- Inversion of a task ending with an exception: whatever the task's status and behaviour, the
+exception propagates at once (no handler) or is left pending for the handler. -/
+theorem fstep_taskEnded_some (s s' : FSt) (x e : Nat)
+    (h : fstep? s (.taskEnded x (some e)) = some s') :
+    (s.handler = .absent ∧ s'.crashed = s.crashed ++ [e]) ∨
+      (∃ t, s.handler = .returns t ∧ s'.statusOf x = some (.raisedPending e)) := by
+  have fin : ∀ e0 : Nat, (e0 == e) = true → ∀ t : FSt, t.crashed = s.crashed ++ [e0] →
+      t.crashed = s.crashed ++ [e] := by
+    intro e0 he0 t ht
+    have : e0 = e := by simpa using he0
+    subst this; exact ht
+  have pend : ∀ e0 : Nat, (e0 == e) = true → ∀ hist : List FLab,
+      FSt.statusOf { (s.setStatus x (.raisedPending e0)) with hist := hist } x =
+        some (.raisedPending e) := by
+    intro e0 he0 hist
+    have : e0 = e := by simpa using he0
+    subst this
+    show (s.setStatus x (.raisedPending e0)).statusOf x = _
+    rw [statusOf_setStatus]; simp
   unfold fstep? at h
   simp only [] at h
   split at h
@@ -406,29 +442,42 @@ theorem fstep_taskEnded_absent (s s' : FSt) (x e : Nat) (hh : s.handler = .absen
     cases hst : s.statusOf x with
     | none => simp [hsp, hst] at h
     | some st =>
-      simp only [hsp, hst, hh] at h
+      simp only [hsp, hst] at h
       split at h
-      · rename_i heq; simp at heq
-      · rename_i heq; simp at heq
+      · exact absurd ‹some e = none› (by simp)
+      · exact absurd ‹some e = none› (by simp)
       · rename_i e0 e1 hb heq
-        obtain ⟨hc, h3⟩ := ite_some_none h
-        clear h
-        have : e0 = e := by
-          have h1 : e0 = e1 := by simpa using hc
-          have h2 : e = e1 := by simpa using heq
-          rw [h1, h2]
-        subst this; subst h3; rfl
+        obtain ⟨hc, h3⟩ := ite_none_right h
+        have h2 : e = e1 := by simpa using heq
+        subst h2
+        split at h3
+        · rename_i hh; injection h3 with h3; subst h3; exact Or.inl ⟨hh, fin e0 hc _ rfl⟩
+        · rename_i t hh; injection h3 with h3; subst h3; exact Or.inr ⟨t, hh, pend e0 hc _⟩
       · rename_i e0 e1 hb heq
-        obtain ⟨hc, h3⟩ := ite_some_none h
-        clear h
-        have : e0 = e := by
-          have h1 : e0 = e1 := by simpa using hc
-          have h2 : e = e1 := by simpa using heq
-          rw [h1, h2]
-        subst this; subst h3; rfl
-      · rename_i heq; simp at heq
+        obtain ⟨hc, h3⟩ := ite_none_right h
+        have h2 : e = e1 := by simpa using heq
+        subst h2
+        split at h3
+        · rename_i hh; injection h3 with h3; subst h3; exact Or.inl ⟨hh, fin e0 hc _ rfl⟩
+        · rename_i t hh; injection h3 with h3; subst h3; exact Or.inr ⟨t, hh, pend e0 hc _⟩
+      · rename_i e0 e1 hb heq
+        obtain ⟨hc, h3⟩ := ite_none_right h
+        have hc := (Bool.and_eq_true _ _ ▸ hc).1
+        have h2 : e = e1 := by simpa using heq
+        subst h2
+        split at h3
+        · rename_i hh; injection h3 with h3; subst h3; exact Or.inl ⟨hh, fin e0 hc _ rfl⟩
+        · rename_i t hh; injection h3 with h3; subst h3; exact Or.inr ⟨t, hh, pend e0 hc _⟩
+      · exact absurd ‹some e = none› (by simp)
+      · exact absurd ‹some e = none› (by simp)
       · obtain ⟨hc, _⟩ := ite_some_none h
         simp at hc
+
+theorem fstep_taskEnded_absent (s s' : FSt) (x e : Nat) (hh : s.handler = .absent)
+    (h : fstep? s (.taskEnded x (some e)) = some s') : s'.crashed = s.crashed ++ [e] := by
+  rcases fstep_taskEnded_some s s' x e h with ⟨_, hc⟩ | ⟨t, ht, _⟩
+  · exact hc
+  · rw [hh] at ht; exact absurd ht (by simp)
 
 theorem fstep_outcome (s s' : FSt) (leaves : List Nat) (h : fstep? s (.outcome leaves) = some s') :
     sortNat leaves = sortNat s.crashed ∧ s.left = true := by
@@ -439,6 +488,20 @@ theorem fstep_outcome (s s' : FSt) (leaves : List Nat) (h : fstep? s (.outcome l
   obtain ⟨hc, _⟩ := ite_some_none h
   simp only [Bool.and_eq_true, beq_iff_eq] at hc
   exact ⟨hc.2, hc.1⟩
+
+/-- An accepted trace is an execution. -/
+theorem faccept_exec (ls : List FLab) : ∀ (s s' : FSt) (n : Nat), faccept s ls n = .ok s' → FExec s ls s' := by
+  induction ls with
+  | nil =>
+    intro s s' n h
+    simp only [faccept] at h
+    injection h with h; subst h; exact FExec.nil s
+  | cons l ls ih =>
+    intro s s' n h
+    simp only [faccept] at h
+    split at h
+    · rename_i s1 hs1; exact FExec.cons s s1 s' l ls hs1 (ih s1 s' (n + 1) h)
+    · exact absurd h (by simp)
 
 end Fc
 end Asphalt
